@@ -1,0 +1,68 @@
+//go:build verif
+
+package lscq
+
+// Fast-forward hook for the verification harness (/verif, property C05). Add-only; compiled only with the
+// build tag `verif`.
+//
+// VerifFastForward translates an EMPTY, QUIESCENT, single-ring queue by k laps of the ring: head and tail are
+// advanced by k*scqsize and the cycle stored in every slot by k; safe/empty bits, data and threshold are left as
+// they are. For a ring whose threshold is armed (2*scqsize-1) this is exactly the state that k*scqsize further
+// Enqueue/Dequeue pairs produce; for a fresh ring (threshold -1, all cycles 0) with k >= 3 it is the state after
+// k-2 laps of pairs followed by 2*scqsize empty polls. (The harness validates both claims on every run against
+// rings that were really driven.) It returns false, changing nothing, unless the queue consists of one open ring
+// with head == tail whose slots are all empty and safe, the threshold is -1 or 2*scqsize-1, and neither the
+// 63-bit ticket counters nor the 62-bit cycles would overflow. Must not be called concurrently with anything.
+
+const (
+	verifSafeBit  = uint64(1) << 63
+	verifEmptyBit = uint64(1) << 62
+	verifCycleMax = uint64(1)<<62 - 1
+)
+
+func verifFFCheck(head, tail uint64, thr int64, next bool, k uint64, flags func(i int) uint64) bool {
+	if next || uint64Get1(tail) || head != uint64Get63(tail) {
+		return false
+	}
+	if thr != -1 && thr != int64(scqsize)*2-1 {
+		return false
+	}
+	if k >= uint64(1)<<47 || head+k*scqsize+4*scqsize >= uint64(1)<<63 {
+		return false
+	}
+	for i := 0; i < scqsize; i++ {
+		f := flags(i)
+		if f&verifSafeBit == 0 || f&verifEmptyBit == 0 || (f&verifCycleMax)+k > verifCycleMax {
+			return false
+		}
+	}
+	return true
+}
+
+func (q *PointerQueue) VerifFastForward(k uint64) bool {
+	r := q.head
+	if r != q.tail || !verifFFCheck(r.head, r.tail, r.threshold, r.next != nil, k, func(i int) uint64 { return r.ring[i].flags }) {
+		return false
+	}
+	for i := range r.ring {
+		r.ring[i].flags += k // the cycle occupies the low 62 bits
+	}
+	r.head += k * scqsize
+	r.tail += k * scqsize
+	return true
+}
+
+func (q *Uint64Queue) VerifFastForward(k uint64) bool {
+	r := q.head
+	if r != q.tail || !verifFFCheck(r.head, r.tail, r.threshold, r.next != nil, k, func(i int) uint64 { return r.ring[i].flags }) {
+		return false
+	}
+	for i := range r.ring {
+		r.ring[i].flags += k
+	}
+	r.head += k * scqsize
+	r.tail += k * scqsize
+	return true
+}
+
+func (q *Queue[E]) VerifFastForward(k uint64) bool { return q.q.VerifFastForward(k) }
